@@ -496,6 +496,10 @@ class CParser:
         self._tokens.reset(mark)
 
     def _tok_coord(self, tok: Token) -> Coord:
+        # Use the file name recorded when the token was lexed: by the time a
+        # node is built the lexer may have looked ahead past a #line directive.
+        if tok.filename is not None:
+            return Coord(file=tok.filename, line=tok.lineno, column=tok.column)
         return self._coord(tok.lineno, tok.column)
 
     def _starts_declaration(self, tok: Optional[Token] = None) -> bool:
